@@ -15,7 +15,7 @@ ALLOWED = (ast.Module, ast.Import, ast.ImportFrom, ast.alias, ast.FunctionDef, a
            ast.Attribute, ast.Name, ast.Constant, ast.Tuple, ast.List, ast.Dict, ast.Subscript, ast.Slice, ast.BinOp, ast.UnaryOp, ast.Compare, ast.Assert, ast.Load, ast.Store,
            ast.operator, ast.unaryop, ast.cmpop, ast.Starred)
 FORBIDDEN = (ast.For, ast.While, ast.If, ast.IfExp, ast.ListComp, ast.SetComp, ast.DictComp, ast.GeneratorExp, ast.Lambda, ast.Try, ast.With, ast.AsyncFor, ast.AsyncWith)
-SIZESETS = ["distinct", "x2", "all2", "x3", "all3"]
+SIZESETS = ["distinct", "x2", "all2", "x64", "x3", "all3"]
 
 
 class Norm(ast.NodeTransformer):
@@ -42,7 +42,7 @@ def analyse(code):
 
 def compile_text(call, be):
     import einx
-    args = [np.zeros(s, dtype="int64") for s in call.shapes]
+    args = [np.broadcast_to(np.zeros((), dtype="int64"), s) for s in call.shapes]      # zero-strided: only the shape matters for tracing, nothing is allocated
     try:
         return calls.run_einx(call, args, backend=be, graph=True)
     except einx.errors.EinxError as e:
@@ -56,7 +56,7 @@ def work(items):
     for dj in items:
         d = gen.Desc(dj["op"], tuple(map(_t, dj["ins"])), tuple(map(_t, dj["outs"])), {k: (tuple(v) if isinstance(v, list) else v) for k, v in dj["env"].items()}, dj["join"], dj["kw"], tuple(dj["decos"]))
         cs = {}
-        for ss in (SIZESETS if not dj.get("quick") else SIZESETS[:3]):
+        for ss in (SIZESETS if not dj.get("quick") else SIZESETS[:4]):
             c = gen.materialize(d, ss)
             if c is not None: cs[ss] = c
         if len(cs) < 2:
